@@ -106,7 +106,7 @@ func concSpecs(tier core.Tier) []concSpec {
 	// triples over the queries with few mapper calls (all interleavings stay enumerable: <= 13!/(5!4!4!) schedules)
 	pool := []int{0, 5, 7}
 	if tier == core.Thorough {
-		pool = []int{0, 5, 7, 2, 4}
+		pool = []int{0, 5, 7, 2}
 	}
 	for a := 0; a < len(pool); a++ {
 		for b := a; b < len(pool); b++ {
@@ -124,8 +124,8 @@ func runConcurrent(run *core.Run) {
 	maxPoints := 0
 	i, n, _ := run.Worker()
 	for k, c := range specs {
-		if n > 1 && (i == 0 || k%(n-1) != i-1) {
-			continue // worker 0 runs the totality and history parts; the scenarios are sharded over workers 1..n-1
+		if k%n != i {
+			continue
 		}
 		st := sched.Explore(run, c.scenario(), -1)
 		scenarios++
